@@ -175,3 +175,64 @@ Example ex_successes :
     [[Some ROk]; [Some ROk]; [Some (RIncorrectBlockHeight 7 6)]; [Some (RNotUnique 7)];
      [Some RInvalidDbStateAfterExec]; [Some RSemaphore; Some ROk]; [None]; [Some ROk]].
 Proof. vm_compute. repeat split. Qed.
+
+(* ---------------- the property statements ---------------- *)
+
+Lemma commit_ok_iff_all : forall st c, wf_call c -> busy st = false ->
+  (snd (fst (run_call st c)) = ROk <-> call_ok (cap st) (obs_of st) c).
+Proof.
+  intros st c Hwf Hb. pose proof (run_call_spec st c Hwf Hb) as H. unfold call_spec in H.
+  destruct (run_call st c) as [[st' r] ev]. cbn [fst snd]. destruct H as [_ [H2 H3]].
+  rewrite <- call_okb_iff. split.
+  - intro Hr. exact (proj1 (H2 Hr)).
+  - intro Hok. destruct r; try reflexivity;
+      (destruct (H3 ltac:(discriminate)) as [Hf _]; congruence).
+Qed.
+
+Lemma failure_leaves_db_all : forall st c, wf_call c ->
+  snd (fst (run_call st c)) <> ROk ->
+  fst (fst (run_call st c)) = st /\ publish_only (snd (run_call st c)).
+Proof.
+  intros st c Hwf. destruct (busy st) eqn:Hb.
+  - rewrite (busy_rejects_all st c Hb). cbn [fst snd]. intros _. split; [reflexivity | constructor].
+  - pose proof (run_call_spec st c Hwf Hb) as H. unfold call_spec in H.
+    destruct (run_call st c) as [[st' r] ev]. cbn [fst snd]. destruct H as [_ [_ H3]].
+    intro Hr. destruct (H3 Hr) as [_ [Hs Hp]]. split; [exact Hs | apply publish_only_iff; exact Hp].
+Qed.
+
+Lemma busy_rejects_conc_all : forall st a b, busy st = false ->
+  step st (OConc a b) =
+  (fst (step st (OCall a)),
+   {| p_res := Some RSemaphore; p_db := obs_of st; p_evs := [] |} :: snd (step st (OCall a))).
+Proof.
+  intros st a b Hb. unfold step, run_call, lock. rewrite Hb. cbn [busy set_busy].
+  destruct (body (set_busy st true) a) as [[st3 ra] eva]. reflexivity.
+Qed.
+
+Lemma broadcast_trace_all : forall cp pre_cons pre_txs ops,
+  Forall wf_op ops ->
+  let tr := run (init cp pre_cons pre_txs) ops in
+  announced (all_events tr) = successes (calls_of ops tr) /\
+  (forall i a b, nth_error (successes (calls_of ops tr)) i = Some a ->
+                 nth_error (successes (calls_of ops tr)) (S i) = Some b -> b = a + 1) /\
+  shape_okb (all_events tr) = true.
+Proof.
+  intros cp pc pt ops Hwf tr.
+  pose proof (model_passes_all cp pc pt ops Hwf) as Hm. fold tr in Hm.
+  destruct (replay_meaning_all _ _ _ _ Hm) as [HA [HC HS]].
+  split; [exact HA|]. split; [|exact HS].
+  apply chain_none_consecutive. exact HC.
+Qed.
+
+Lemma replay_meaning_init : forall cp pre_cons pre_txs ops obs,
+  trace_okb cp (obs_of (init cp pre_cons pre_txs)) ops obs = true ->
+  announced (all_events obs) = successes (calls_of ops obs) /\
+  (forall i a b, nth_error (successes (calls_of ops obs)) i = Some a ->
+                 nth_error (successes (calls_of ops obs)) (S i) = Some b -> b = a + 1) /\
+  shape_okb (all_events obs) = true.
+Proof.
+  intros cp pc pt ops obs H.
+  destruct (replay_meaning_all _ _ _ _ H) as [HA [HC HS]].
+  split; [exact HA|]. split; [|exact HS].
+  apply chain_none_consecutive. exact HC.
+Qed.
